@@ -39,6 +39,8 @@ for d in sorted(glob.glob('/verif/seeded/*')):
         last[c] = e
     missed_by = [c for c, e in last.items() if e == '0']
     strengthened = [c for c in last if first[c] == '0' and last[c] != '0']
+    # a check that exited 1 against the change caught it, also when its counter-example was an existing regression replay
+    caught = sorted(set(caught) | {c for c, e in last.items() if e == '1'})
     meta = {
         'name': name,
         'breaks_property': prop,
